@@ -155,6 +155,13 @@ class Checker:
         with ProcessPoolExecutor(max_workers=workers) as ex:
             for name, res in ex.map(solve.work, items, chunksize=1):
                 self.results[name] = res
+        # solver noise must never become a verdict: anything undecided is retried with a 4x budget on few workers
+        retry = [(i, smt, cov, timeout * 4) for (i, smt, cov, _) in items if self.results[i]['status'] in ('unknown', 'error')]
+        if retry:
+            with ProcessPoolExecutor(max_workers=min(4, len(retry))) as ex:
+                for name, res in ex.map(solve.work, retry, chunksize=1):
+                    res['retried'] = True
+                    self.results[name] = res
 
     # -- verdicts -----------------------------------------------------------------------------------------
     def analyse(self, bounded):
